@@ -17,8 +17,6 @@ Variable fn : option (list string) -> tree A -> list (option (tree A)) -> option
 
 (* one tensordict, its tasks anywhere in the shared flat list *)
 Lemma member_fusion con so sm sf oth out base tasks lfs log :
-  (o_inplace o = true -> nont_free A sf = true) ->
-  (out <> None -> nont_free A sf = true) ->
   flat_items A o (o_default o) con [] sm sf oth sf base = Ok (tasks, lfs) ->
   log_ok A fn log base tasks ->
   mbind (of_res (rebuild_init A o so sm sf out None)) (fun init =>
@@ -26,14 +24,10 @@ Lemma member_fusion con so sm sf oth out base tasks lfs log :
   MOk (level_finish A o sm sf None (Some (fst ra)) (snd ra))))
   = of_res (apply_nest A o fn con [] so sm sf oth out None).
 Proof.
-  intros Hnf Hout Hfl Hlog. unfold apply_nest, rebuild_init.
+  intros Hfl Hlog. unfold apply_nest, rebuild_init.
   destruct (level_init A o so sm sf out) as [init| |] eqn:Einit; [|reflexivity|reflexivity].
   destruct (level_init_props A o so sm sf out init Einit) as (P1 & P2 & P3).
-  assert (Hip : o_inplace o = true -> nont_free A sf = true /\ init <> None).
-  { intro Hi. split; [now apply Hnf|now apply P2]. }
-  assert (Hop : out <> None -> nont_free A sf = true /\ init <> None).
-  { intro Ho. split; [now apply Hout|now apply P1]. }
-  pose proof (fusion A o fn sf con [] sm sf oth out None base init false Hip Hop (P3 None)) as F.
+  pose proof (fusion A o fn sf con [] sm sf oth out None base init false P2 P1 (P3 None)) as F.
   rewrite Hfl in F. destruct (F log Hlog) as [S1 _].
   cbn [bind of_res mbind]. fold (unopt A o sm None init).
   destruct (apply_items A o fn con [] sm sf oth out None sf init false) as [[res any']| |]; cbn [same_outcome] in S1;
@@ -48,16 +42,12 @@ Variable fn : option (list string) -> tree A -> list (option (tree A)) -> option
 Notation tree := (tree A).
 Notation mo := (mo o).
 
-Definition nf_t (t : tree) : bool := match t with Node _ _ sf => nont_free A sf | _ => true end.
-
 Lemma members_fusion con log : forall members others outs base tasks lfss,
   lz_flat A o con members others base = Ok (tasks, lfss) ->
   log_ok A fn log base tasks ->
-  (o_inplace o = true -> forallb nf_t members = true) ->
-  (outs <> None -> forallb nf_t members = true) ->
   rebuild_members A o log members lfss outs = of_res (lazy_members A mo fn con [] members others outs).
 Proof.
-  induction members as [|m ms IH]; intros others outs base tasks lfss Hfl Hlog Hip Hop; cbn [lz_flat] in Hfl.
+  induction members as [|m ms IH]; intros others outs base tasks lfss Hfl Hlog; cbn [lz_flat] in Hfl.
   - cbn [lazy_members]. destruct (forallb (@nil_b tree) others); [|discriminate]. inv Hfl. reflexivity.
   - destruct (heads A others) as [oth0|] eqn:Eh; [|discriminate].
     destruct m as [s v|ob d mm|so sm sf]; try discriminate.
@@ -66,26 +56,18 @@ Proof.
     cbn [lazy_members rebuild_members]. rewrite Eh.
     destruct outs as [[|x xs]|].
     + reflexivity.
-    + assert (Hnf : nont_free A sf = true).
-      { specialize (Hop ltac:(discriminate)). cbn [forallb nf_t] in Hop. now apply andb_true_iff in Hop. }
-      unfold member_rebuild.
-      rewrite (member_fusion A mo fn con so sm sf oth0 (Some x) base t1 l1 log (fun _ => Hnf) (fun _ => Hnf) Hf1 Hlog1).
+    + unfold member_rebuild.
+      rewrite (member_fusion A mo fn con so sm sf oth0 (Some x) base t1 l1 log Hf1 Hlog1).
       rewrite of_res_bind. destruct (apply_nest A mo fn con [] so sm sf oth0 (Some x) None) as [r0| |]; cbn [of_res mbind]; try reflexivity.
       cbn [option_map tl].
       rewrite (IH (map (@tl tree) others) (Some xs) _ _ _ Hf2 Hlog2).
-      * rewrite of_res_bind. destruct (lazy_members A mo fn con [] ms (map (@tl tree) others) (Some xs)); reflexivity.
-      * intro Hi. specialize (Hip Hi). cbn [forallb] in Hip. now apply andb_true_iff in Hip.
-      * intros _. specialize (Hop ltac:(discriminate)). cbn [forallb] in Hop. now apply andb_true_iff in Hop.
+      rewrite of_res_bind. destruct (lazy_members A mo fn con [] ms (map (@tl tree) others) (Some xs)); reflexivity.
     + unfold member_rebuild.
-      assert (Hnf : o_inplace mo = true -> nont_free A sf = true).
-      { intro Hi. specialize (Hip Hi). cbn [forallb nf_t] in Hip. now apply andb_true_iff in Hip. }
-      rewrite (member_fusion A mo fn con so sm sf oth0 None base t1 l1 log Hnf ltac:(intro X; now elim X) Hf1 Hlog1).
+      rewrite (member_fusion A mo fn con so sm sf oth0 None base t1 l1 log Hf1 Hlog1).
       rewrite of_res_bind. destruct (apply_nest A mo fn con [] so sm sf oth0 None None) as [r0| |]; cbn [of_res mbind]; try reflexivity.
       cbn [option_map].
       rewrite (IH (map (@tl tree) others) None _ _ _ Hf2 Hlog2).
-      * rewrite of_res_bind. destruct (lazy_members A mo fn con [] ms (map (@tl tree) others) None); reflexivity.
-      * intro Hi. specialize (Hip Hi). cbn [forallb] in Hip. now apply andb_true_iff in Hip.
-      * intro X. now elim X.
+      rewrite of_res_bind. destruct (lazy_members A mo fn con [] ms (map (@tl tree) others) None); reflexivity.
 Qed.
 
 
@@ -124,17 +106,14 @@ Proof.
   rewrite H. auto.
 Qed.
 
-Theorem lazy_mt_nest_agrees : forall fixh con self others out names pi oth tasks lfss,
+Theorem lazy_mt_nest_agrees : forall con self others out names pi oth tasks lfss,
   o_bs o = None ->
-  (fixh = false -> forall ms, out <> Some (OutLazy A true ms)) ->
   unbind_all A (l_sd A self) others = Ok oth ->
   lz_flat A o con (l_members A self) oth 0 = Ok (tasks, lfss) ->
   (forall id, id < List.length tasks -> In id pi) ->
-  (o_inplace o = true -> forallb nf_t (l_members A self) = true) ->
-  (out <> None -> forallb nf_t (l_members A self) = true) ->
-  agree (lz_apply_nest A o fn con self others out names) (lz_mt_nest A o fn fixh con self others out names pi).
+  agree (lz_apply_nest A o fn con self others out names) (lz_mt_nest A o fn con self others out names pi).
 Proof.
-  intros fixh con self others out names pi oth tasks lfss Hbs Htc Hoth Hfl Hpi Hip Hop.
+  intros con self others out names pi oth tasks lfss Hbs Hoth Hfl Hpi.
   unfold lz_apply_nest, lz_mt_nest. destruct (l_members A self) as [|m0 mrest] eqn:Em; [reflexivity|].
   rewrite Hbs, Hoth. cbn [of_res mbind]. rewrite Hfl. cbn [of_res mbind fst snd].
   destruct (refuse_inplace o names); [reflexivity|].
@@ -142,7 +121,7 @@ Proof.
   { intros i t Hi. cbn [Nat.add]. rewrite log_get_run, Hi.
     assert (Hin : In i pi) by (apply Hpi; apply nth_error_Some; congruence).
     apply existsb_eqb_in in Hin. now rewrite Hin. }
-  assert (Hbody : forall outs, mt_out A fixh out = Ok outs -> out_members A out = outs ->
+  assert (Hbody : forall outs, mt_out A out = Ok outs -> out_members A out = outs ->
             agree (bind (Ok oth) (fun oth0 =>
                    bind (lazy_members A mo fn con [] (m0 :: mrest) oth0 (out_members A out)) (fun rs =>
                    let rets := map snd rs in
@@ -155,7 +134,7 @@ Proof.
                               else Ok (Some (LRStack A New (l_sd A self) (l_name A self)
                                                (flat_map (fun r => match r with Some t => [t] | None => [] end) rets))))
                              (finish_names A names))))
-                  (mbind (of_res (mt_out A fixh out)) (fun outs0 =>
+                  (mbind (of_res (mt_out A out)) (fun outs0 =>
                    mbind (rebuild_members A o (run_tasks A fn tasks pi) (m0 :: mrest) lfss outs0) (fun rs =>
                    let rets := map snd rs in
                    if fe_drops o && forallb is_none rets then MOk (LRNone A)
@@ -166,8 +145,6 @@ Proof.
                               (fun st => of_res (finish_names A names (Some st))))))).
   { intros outs Hmo Hom. rewrite Hmo, Hom. cbn [bind of_res mbind].
     rewrite (members_fusion con _ (m0 :: mrest) oth outs 0 tasks lfss Hfl Hlog).
-    2:{ exact Hip. }
-    2:{ intro Ho. apply Hop. intro E. subst out. cbn [out_members] in Hom. congruence. }
     destruct (lazy_members A mo fn con [] (m0 :: mrest) oth outs) as [rs|e|] eqn:Hrs; cbn [bind of_res mbind]; [|exact (agree_refl (Raised e))|reflexivity].
     cbn zeta. rewrite (andb_comm (fe_drops o)).
     destruct (forallb is_none (map snd rs)) eqn:Eall; cbn [andb].
@@ -180,24 +157,20 @@ Proof.
       + cbn [bind agree]. destruct (stack_results_mix _ Eex) as [E|E]; rewrite E; cbn [bind of_res mbind]; auto.
       + rewrite (stack_results_some _ Eex). cbn [bind of_res mbind]. exact (agree_refl (finish_names A names _)). }
   destruct out as [[tc oms|]|].
-  - destruct tc; [|apply (Hbody (Some oms)); reflexivity].
-    destruct fixh; [apply (Hbody (Some oms)); reflexivity|exfalso; now apply (Htc eq_refl oms)].
+  - apply (Hbody (Some oms)); reflexivity.
   - reflexivity.
   - apply (Hbody None); reflexivity.
 Qed.
 
-Theorem lazy_mt_equals_st : forall fixh con propagate self others out names pi oth tasks lfss,
+Theorem lazy_mt_equals_st : forall con propagate self others out names pi oth tasks lfss,
   o_bs o = None ->
-  (fixh = false -> forall ms, out <> Some (OutLazy A true ms)) ->
   unbind_all A (l_sd A self) others = Ok oth ->
   lz_flat A o con (l_members A self) oth 0 = Ok (tasks, lfss) ->
   (forall id, id < List.length tasks -> In id pi) ->
-  (o_inplace o = true -> forallb nf_t (l_members A self) = true) ->
-  (out <> None -> forallb nf_t (l_members A self) = true) ->
-  agree (lz_front A o fn con propagate self others out names) (lz_mt_front A o fn fixh con propagate self others out names pi).
+  agree (lz_front A o fn con propagate self others out names) (lz_mt_front A o fn con propagate self others out names pi).
 Proof.
-  intros fixh con propagate self others out names pi oth tasks lfss Hbs Htc Hoth Hfl Hpi Hip Hop.
-  pose proof (lazy_mt_nest_agrees fixh con self others out names pi oth tasks lfss Hbs Htc Hoth Hfl Hpi Hip Hop) as H.
+  intros con propagate self others out names pi oth tasks lfss Hbs Hoth Hfl Hpi.
+  pose proof (lazy_mt_nest_agrees con self others out names pi oth tasks lfss Hbs Hoth Hfl Hpi) as H.
   unfold lz_front, lz_mt_front.
   destruct (lz_apply_nest A o fn con self others out names) as [r|e|]; cbn [agree] in H.
   - rewrite H. reflexivity.
@@ -206,11 +179,11 @@ Proof.
 Qed.
 
 (* the thread-pool form refuses batch_size= (the single-threaded form hands it to the stacked view or, with out=, ignores it) *)
-Theorem lazy_mt_refuses_batch_size : forall fixh con propagate self others out names pi b,
+Theorem lazy_mt_refuses_batch_size : forall con propagate self others out names pi b,
   l_members A self <> [] -> o_bs o = Some b ->
-  lz_mt_front A o fn fixh con propagate self others out names pi = MRaised ERuntime.
+  lz_mt_front A o fn con propagate self others out names pi = MRaised ERuntime.
 Proof.
-  intros fixh con propagate self others out names pi b Hne Hb. unfold lz_mt_front, lz_mt_nest.
+  intros con propagate self others out names pi b Hne Hb. unfold lz_mt_front, lz_mt_nest.
   destruct (l_members A self); [now elim Hne|]. now rewrite Hb.
 Qed.
 
